@@ -1,27 +1,33 @@
-"""C01 C02 C09: prefix table.  Model: PfxTrie (algorithm) + PfxTable (contract, reload protocol).
-Binding A: TLC-generated operation histories over a small universe, embedded into real IPv4/IPv6
-address space and replayed through the real pfx_table with a full query sweep after every step.
-Binding B: seeded random driver on realistic data.  Both produce ndjson traces validated by
-PfxTableTrace.tla with the property's monitor as invariant."""
+"""C01 C02 C09 (prefix table) and C10 (router-key table).
+
+M  : TLC on PfxTrie.tla (the trie algorithm, node by node; refinement to set semantics; RFC 6811
+     verdicts and reasons for every query) and on PfxTable.tla / SpkiTable.tla (contract, callback
+     mirror, reload protocol copy/swap/notify-diff).
+A  : TLC-generated operation histories (simulation of PfxTrie / MCPfxTable / MCSpkiTable with a
+     history variable) replayed through the real tables, with a full lookup sweep after every step.
+B  : seeded random drivers on realistic data.
+A and B both produce ndjson traces validated by PfxTableTrace.tla / SpkiTableTrace.tla with the
+property's monitor as the invariant."""
 import json
 import os
 import random
-import re
 import time
 
 import vlib
+from tracecheck import TraceChecker
 from vlib import InfraError
 
-NAME = {"C01": "RFC 6811 verdicts and reasons", "C02": "set semantics / return codes / enumeration",
-        "C09": "callback change log"}
 ASN_MAP = {0: "0", 1: "65001", 2: "4200000000", 99: "7"}
 
-
-def write_cfg(path, template, invariant, extra=""):
-    s = open(os.path.join(vlib.SPEC, template)).read()
-    s = re.sub(r"(?m)^INVARIANTS.*$", "INVARIANTS " + invariant, s)
-    open(path, "w").write(s + extra)
-    return path
+TIERS = {
+    "quick": dict(trie_cfg="PfxTrie_quick.cfg", sim_num=3, sim_depth=24, tab_sim_num=3, episodes=40, ops=60, maxpool=60,
+                  k_episodes=30, k_ops=150, k_maxpool=400, tlc_timeout=900),
+    "thorough": dict(trie_cfg="PfxTrie_w3.cfg", sim_num=40, sim_depth=24, tab_sim_num=40, episodes=500, ops=80, maxpool=300,
+                     k_episodes=300, k_ops=300, k_maxpool=1200, tlc_timeout=3400),
+}
+RELEVANT = {"C01": ("val",), "C02": ("add", "rm", "srcrm", "enum", "copyx"),
+            "C09": ("add", "rm", "srcrm", "free", "diff", "copyx", "swap"),
+            "C10": ("add", "rm", "srcrm", "get", "ski", "diff", "copyx")}
 
 
 def words(bits, maxb):
@@ -32,181 +38,176 @@ def words(bits, maxb):
     return [(v >> (maxb - 16 * (i + 1))) & 0xffff for i in range(maxb // 16)]
 
 
-def behaviours_to_script(behs, rnd, W, out_path):
-    """Embed each TLC behaviour (ops over W-bit prefixes) into a real address family and add
-    a full sweep of the W-bit query universe (x ASNs) + an enumeration after every step."""
+def trie_behaviours_to_script(behs, rnd, W, f):
+    """Embed each PfxTrie behaviour (ops over W-bit prefixes) into a real address family and add a
+    sweep of the W-bit query universe (x 2 of 4 ASNs) + an enumeration after every step."""
     universe = [[]]
     for k in range(1, W + 1):
         universe += [[(i >> (k - 1 - j)) & 1 for j in range(k)] for i in range(2 ** k)]
     n_ops = 0
-    with open(out_path, "w") as f:
-        for bi, beh in enumerate(behs):
-            fam = rnd.choice([4, 6])
-            maxb = 32 if fam == 4 else 128
-            base_len = rnd.choice([0, 0, maxb - W, rnd.randrange(0, maxb - W + 1), 16 - 1, 31 if fam == 6 else 13,
-                                   63 if fam == 6 else 7])
-            base = [rnd.randrange(2) for _ in range(base_len)]
-            wide_max = rnd.random() < 0.3
+    for beh in behs:
+        fam = rnd.choice([4, 6])
+        maxb = 32 if fam == 4 else 128
+        base_len = rnd.choice([0, 0, maxb - W, rnd.randrange(0, maxb - W + 1), 15, 31 if fam == 6 else 13,
+                               63 if fam == 6 else 7, 95 if fam == 6 else 29])
+        base = [rnd.randrange(2) for _ in range(base_len)]
+        wide_max = rnd.random() < 0.3
 
-            def rec(o):
-                bits = base + o["bits"]
-                m = base_len + o["m"]
-                if wide_max and o["m"] == W:
-                    m = maxb
-                return {"f": fam, "w": words(bits, maxb), "l": len(bits), "m": m, "a": ASN_MAP[o["a"]], "s": o["s"]}
+        def rec(o):
+            bits = base + o["bits"]
+            m = base_len + o["m"]
+            if wide_max and o["m"] == W:
+                m = maxb
+            return {"f": fam, "w": words(bits, maxb), "l": len(bits), "m": m, "a": ASN_MAP[o["a"]], "s": o["s"]}
 
-            f.write(json.dumps({"op": "reset"}) + "\n")
-            f.write(json.dumps({"op": "init", "t": 1, "cbk": 1}) + "\n")
-            for o in beh:
-                if o["op"] in ("add", "rm"):
-                    f.write(json.dumps({"op": o["op"], "t": 1, "r": rec(o)}) + "\n")
-                else:
-                    f.write(json.dumps({"op": "srcrm", "t": 1, "s": o["s"]}) + "\n")
-                n_ops += 1
-                for q in universe:
-                    qb = base + q
-                    host = [rnd.randrange(2) for _ in range(maxb - len(qb))] if rnd.random() < 0.3 else []
-                    for a in rnd.sample([0, 1, 2, 99], 2):
-                        f.write(json.dumps({"op": "val", "t": 1, "q": {"f": fam, "w": words(qb + host, maxb), "l": len(qb)},
-                                            "a": ASN_MAP[a], "wr": 1 if rnd.random() < 0.7 else 0}) + "\n")
-                f.write(json.dumps({"op": "enum", "t": 1}) + "\n")
-            f.write(json.dumps({"op": "free", "t": 1}) + "\n")
+        f.write(json.dumps({"op": "reset"}) + "\n")
+        f.write(json.dumps({"op": "init", "t": 1, "cbk": 1}) + "\n")
+        for o in beh:
+            if o["op"] in ("add", "rm"):
+                f.write(json.dumps({"op": o["op"], "t": 1, "r": rec(o)}) + "\n")
+            else:
+                f.write(json.dumps({"op": "srcrm", "t": 1, "s": o["s"]}) + "\n")
+            n_ops += 1
+            for q in universe:
+                qb = base + q
+                host = [rnd.randrange(2) for _ in range(maxb - len(qb))] if rnd.random() < 0.3 else []
+                for a in rnd.sample([0, 1, 2, 99], 2):
+                    f.write(json.dumps({"op": "val", "t": 1, "q": {"f": fam, "w": words(qb + host, maxb), "l": len(qb)},
+                                        "a": ASN_MAP[a], "wr": 1 if rnd.random() < 0.7 else 0}) + "\n")
+            f.write(json.dumps({"op": "enum", "t": 1}) + "\n")
+        f.write(json.dumps({"op": "free", "t": 1}) + "\n")
     return n_ops
 
 
-def run_harness(exe, args, what):
-    rc, out = vlib.sh([exe] + args, env=vlib.SAN_ENV, timeout=600)
-    return rc, out
-
-
-TIERS = {
-    "quick": dict(model_cfg="PfxTrie_quick.cfg", table_cfg="MCPfxTable.cfg", sim_num=3, sim_depth=24, episodes=40, ops=60,
-                  maxpool=60, tlc_timeout=600),
-    "thorough": dict(model_cfg="PfxTrie_w3.cfg", table_cfg="MCPfxTable.cfg", sim_num=30, sim_depth=24, episodes=400, ops=80,
-                     maxpool=300, tlc_timeout=3000),
-}
+def contract_behaviours_to_script(behs, kind, f):
+    """MCPfxTable / MCSpkiTable behaviours already use concrete records: copy the ops and add
+    observation sweeps of the live table after every step."""
+    n_ops = 0
+    for beh in behs:
+        f.write(json.dumps({"op": "reset"}) + "\n")
+        f.write(json.dumps({"op": "init", "t": 1, "cbk": 1}) + "\n")
+        for o in beh:
+            f.write(json.dumps(o) + "\n")
+            n_ops += 1
+            if kind == "pfx":
+                f.write(json.dumps({"op": "enum", "t": 1}) + "\n")
+                for w, l in (([0, 0], 0), ([32768, 0], 1), ([32768, 0], 2), ([49152, 0], 2), ([16384, 0], 3)):
+                    f.write(json.dumps({"op": "val", "t": 1, "q": {"f": 4, "w": w, "l": l}, "a": "1", "wr": 1}) + "\n")
+            else:
+                for a in ("1", "2"):
+                    for k in ("s1", "s2"):
+                        f.write(json.dumps({"op": "get", "t": 1, "a": a, "k": k}) + "\n")
+                for k in ("s1", "s2", "s3"):
+                    f.write(json.dumps({"op": "ski", "t": 1, "k": k}) + "\n")
+    return n_ops
 
 
 def run(ctx):
     pid, tier, seed = ctx.pid, ctx.tier, ctx.seed
     P = TIERS[tier]
+    kind = "spki" if pid == "C10" else "pfx"
     t0 = time.time()
     verdict = vlib.Verdict(pid)
-    wd = vlib.mkdir(os.path.join(vlib.BUILD, pid), clean=not ctx.replay)
+    wd = vlib.mkdir(os.path.join(vlib.BUILD, pid), clean=True)
     objs = vlib.build_lib(pid, "asan")
-    exe = vlib.build_harness(pid, "asan", ["pfx_harness.c"], objs)
+    exe = vlib.build_harness(pid, "asan", ["%s_harness.c" % kind], objs)
+    tmod = "PfxTableTrace" if kind == "pfx" else "SpkiTableTrace"
     inv = "OK_" + pid
-    cfg = write_cfg(os.path.join(wd, "trace.cfg"), "PfxTableTrace.cfg", inv)
-    cov = {"model": {}, "binding_A": {}, "binding_B": {}}
-    samples = []
-    states = transitions = 0
-    traces = 0
+    tc = TraceChecker(ctx, verdict, wd, tmod, tmod + ".cfg", inv, timeout=P["tlc_timeout"])
+    cov = {}
 
-    def validate(trace, tag, meta):
-        nonlocal traces
-        acc, matched, total, r = vlib.validate_trace("PfxTableTrace", cfg, trace, pid + "-" + tag, timeout=P["tlc_timeout"])
-        resets = sum(1 for line in open(trace) if '"e":"reset"' in line)
-        if acc:
-            traces += max(1, resets)
-            return True
-        # repeat once: a rejection is reported only if it is reproducible
-        acc2, matched2, _, r2 = vlib.validate_trace("PfxTableTrace", cfg, trace, pid + "-" + tag + "-re", timeout=P["tlc_timeout"])
-        if acc2:
-            vlib.log("rejection not reproducible; ignoring (infra flake)")
-            return True
-        lines = open(trace).read().splitlines()
-        bad_line = lines[matched2 - 1] if r2.violation and matched2 >= 1 and matched2 <= len(lines) else \
-            (lines[matched2] if matched2 < len(lines) else "<end>")
-        json.dump(meta, open(os.path.join(wd, "meta.json"), "w"))
-        rp = vlib.save_replay(pid, "%s-seed%d" % (tag, seed), [trace, os.path.join(wd, "meta.json"), meta.get("script")])
-        ev = json.loads(bad_line) if bad_line.startswith("{") else {}
-        key = "%s:%s@%s" % (pid, r2.violation or "unexplained-event", ev.get("e", "?"))
-        verdict.deviation(key, "monitor %s false / event not explained at trace line %d of %d: %s"
-                          % (inv, matched2, total, bad_line[:400]), rp)
-        return False
+    def harness(args, tag, meta, extra=()):
+        trace = os.path.join(wd, "trace%s.ndjson" % tag)
+        rc, out = vlib.sh([exe] + args + [trace], env=vlib.SAN_ENV, timeout=1200)
+        if rc != 0:
+            mpath = os.path.join(wd, "meta.json")
+            json.dump(meta, open(mpath, "w"))
+            rp = vlib.save_replay(pid, "%s-crash-seed%d" % (tag, seed), [mpath] + list(extra))
+            verdict.deviation("%s:harness-crash-%s" % (pid, tag), "harness exit %d: %s" % (rc, out[-1500:]), rp)
+            return None, out
+        tc.validate(trace, tag, meta, extra)
+        return trace, out
 
     if ctx.replay:
         meta = json.load(open(os.path.join(ctx.replay, "meta.json")))
-        trace = os.path.join(wd, "replay.ndjson")
         if meta["mode"] == "gen":
-            rc, out = run_harness(exe, ["gen"] + [str(x) for x in meta["args"]] + [trace], "replay")
+            harness(["gen"] + [str(x) for x in meta["args"]], "replay", meta)
         else:
-            rc, out = run_harness(exe, ["script", os.path.join(ctx.replay, os.path.basename(meta["script"])), trace], "replay")
-        if rc != 0:
-            verdict.deviation("%s:harness-crash" % pid, "harness exit %d: %s" % (rc, out[-800:]), ctx.replay)
-        else:
-            validate(trace, "replay", meta)
+            sc = os.path.join(ctx.replay, os.path.basename(meta["script"]))
+            harness(["script", sc], "replay", meta, [sc])
         return verdict.finish()
 
     # ---- M: the design half
+    models = []
     if pid in ("C01", "C02"):
-        r = vlib.tlc_model("PfxTrie", P["model_cfg"], pid + "-model", workers=16, timeout=P["tlc_timeout"], xmx="24g")
-        cov["model"] = {"spec": "PfxTrie.tla", "cfg": P["model_cfg"], **r.summary(),
-                        "invariants": "Refines PathInv HeapInv NoEmpty Distinct ValidateOK"}
-    else:
-        r = vlib.tlc_model("MCPfxTable", P["table_cfg"], pid + "-model", workers=16, coverage=True, timeout=P["tlc_timeout"])
-        cov["model"] = {"spec": "PfxTable.tla", "cfg": P["table_cfg"], **r.summary(),
-                        "invariants": "MirrorOK TypeOK DiffIsNet ReloadAtomic",
-                        "action_coverage": {k: v[1] for k, v in r.coverage.items()}}
-        dead = [k for k, v in r.coverage.items() if v[1] == 0]
+        r = vlib.tlc_model("PfxTrie", P["trie_cfg"], pid + "-model", workers=16, timeout=P["tlc_timeout"], xmx="24g")
+        models.append({"spec": "PfxTrie.tla", "cfg": P["trie_cfg"], **r.summary(),
+                       "checked": "Refines PathInv HeapInv NoEmpty Distinct ValidateOK"})
+    if pid in ("C02", "C09", "C10"):
+        mm = "MCPfxTable" if kind == "pfx" else "MCSpkiTable"
+        r2 = vlib.tlc_model(mm, mm + ".cfg", pid + "-model2", workers=16, coverage=True, timeout=P["tlc_timeout"])
+        dead = [k for k, v in r2.coverage.items() if v[1] == 0 and k != "Init"]
+        if len(r2.coverage) < 5:
+            raise InfraError("action coverage of %s not reported" % mm)
         if dead:
-            raise InfraError("vacuity: actions never taken in %s: %s" % (P["table_cfg"], dead))
-    states, transitions = r.distinct, r.generated
+            raise InfraError("vacuity: actions never taken in %s: %s" % (mm, dead))
+        models.append({"spec": mm + ".tla", "cfg": mm + ".cfg", **r2.summary(),
+                       "checked": "MirrorOK ReloadAtomic" + (" DiffIsNet TypeOK" if kind == "pfx" else " LookupsPartition"),
+                       "action_coverage": {k: v[1] for k, v in r2.coverage.items()}})
+    states = sum(m["distinct"] for m in models)
+    transitions = sum(m["generated"] for m in models)
+    cov["model"] = models
 
     # ---- A: TLC-generated histories replayed through the real table
-    rs = vlib.run_tlc("PfxTrie", "PfxTrie_sim.cfg", pid + "-sim", workers=4, simulate=P["sim_num"], depth=P["sim_depth"] + 1,
-                      seed=seed, timeout=P["tlc_timeout"])
-    if rs.error or rs.violation:
-        raise InfraError("behaviour generation failed: %s %s" % (rs.error, rs.violation))
-    behs = [json.loads(json.loads('"' + m + '"')) for m in re.findall(r'<<"BEH", "((?:[^"\\]|\\.)*)">>', rs.out)]
-    if not behs:
-        raise InfraError("TLC produced no behaviours")
     rnd = random.Random(seed)
     script = os.path.join(wd, "script.ndjson")
-    n_ops = behaviours_to_script(behs, rnd, 3, script)
-    traceA = os.path.join(wd, "traceA.ndjson")
-    rc, out = run_harness(exe, ["script", script, traceA], "A")
-    if rc != 0:
-        rp = vlib.save_replay(pid, "A-crash-seed%d" % seed, [script])
-        verdict.deviation("%s:harness-crash" % pid, "replaying TLC behaviours: exit %d: %s" % (rc, out[-800:]), rp)
-    else:
-        validate(traceA, "A", {"mode": "script", "script": script, "seed": seed})
-    nA = sum(1 for _ in open(traceA)) if os.path.exists(traceA) else 0
-    cov["binding_A"] = {"behaviours": len(behs), "operations": n_ops, "events": nA,
-                        "generator": "tlc -simulate PfxTrie_sim.cfg (W=3, 2 sources, AS {0,1,2}, every max_len)"}
+    n_ops = 0
+    gens = []
+    with open(script, "w") as f:
+        if kind == "pfx":
+            behs = vlib.tlc_behaviours("PfxTrie", "PfxTrie_sim.cfg", pid + "-simA", P["sim_num"], P["sim_depth"] + 1, seed)
+            n_ops += trie_behaviours_to_script(behs, rnd, 3, f)
+            gens.append({"spec": "PfxTrie.tla", "cfg": "PfxTrie_sim.cfg", "behaviours": len(behs)})
+            behs2 = vlib.tlc_behaviours("MCPfxTable", "MCPfxTable_sim.cfg", pid + "-simA2", P["tab_sim_num"], 31, seed)
+            n_ops += contract_behaviours_to_script(behs2, "pfx", f)
+            gens.append({"spec": "MCPfxTable.tla", "cfg": "MCPfxTable_sim.cfg", "behaviours": len(behs2)})
+        else:
+            behs2 = vlib.tlc_behaviours("MCSpkiTable", "MCSpkiTable_sim.cfg", pid + "-simA2", P["tab_sim_num"] * 3, 31, seed)
+            n_ops += contract_behaviours_to_script(behs2, "spki", f)
+            gens.append({"spec": "MCSpkiTable.tla", "cfg": "MCSpkiTable_sim.cfg", "behaviours": len(behs2)})
+    traceA, _ = harness(["script", script], "A", {"mode": "script", "script": script, "seed": seed}, [script])
+    cov["binding_A"] = {"generators": gens, "operations": n_ops,
+                        "events": sum(1 for _ in open(traceA)) if traceA else 0}
 
     # ---- B: seeded random driver on realistic data
-    traceB = os.path.join(wd, "traceB.ndjson")
-    args = [seed, P["episodes"], P["ops"], P["maxpool"]]
-    rc, out = run_harness(exe, ["gen"] + [str(x) for x in args] + [traceB], "B")
-    ub = out.count("runtime error:")
-    if rc != 0:
-        json.dump({"mode": "gen", "args": args, "seed": seed}, open(os.path.join(wd, "meta.json"), "w"))
-        rp = vlib.save_replay(pid, "B-crash-seed%d" % seed, [os.path.join(wd, "meta.json")])
-        verdict.deviation("%s:harness-crash" % pid, "random driver: exit %d: %s" % (rc, out[-800:]), rp)
+    if kind == "pfx":
+        args = [seed, P["episodes"], P["ops"], P["maxpool"]]
     else:
-        validate(traceB, "B", {"mode": "gen", "args": args, "seed": seed})
-    evs = vlib.read_ndjson(traceB) if os.path.exists(traceB) else []
+        args = [seed, P["k_episodes"], P["k_ops"], P["k_maxpool"]]
+    traceB, outB = harness(["gen"] + [str(x) for x in args], "B", {"mode": "gen", "args": args, "seed": seed})
+    evs = vlib.read_ndjson(traceB) if traceB else []
     kinds = {}
     for e in evs:
         kinds[e["e"]] = kinds.get(e["e"], 0) + 1
-    cov["binding_B"] = {"events": len(evs), "by_kind": kinds, "episodes": P["episodes"], "ubsan_reports_diagnostic": ub}
-    relevant = {"C01": ("val",), "C02": ("add", "rm", "srcrm", "enum", "copyx"), "C09": ("add", "rm", "srcrm", "free", "diff", "copyx")}[pid]
-    allev = evs + (vlib.read_ndjson(traceA) if os.path.exists(traceA) else [])
-    rel = [e for e in allev if e["e"] in relevant]
-    distinct = len({vlib.digest(e) for e in rel if (e["e"] != "val" or e.get("res") != "notfound")})
-    samples = [e for e in rel if e["e"] != "val" or e.get("res") != "notfound"][:3]
+    cov["binding_B"] = {"events": len(evs), "by_kind": kinds, "episodes": args[1],
+                        "ubsan_reports_diagnostic": outB.count("runtime error:")}
+    allev = evs + (vlib.read_ndjson(traceA) if traceA else [])
+    rel = [e for e in allev if e["e"] in RELEVANT[pid]]
+    nontriv = [e for e in rel if not (e["e"] == "val" and e.get("res") == "notfound") and not (e["e"] in ("get", "ski") and not e.get("res"))]
+    distinct = len({vlib.digest(e) for e in nontriv})
 
     rcode = verdict.finish()
     vlib.write_evidence(pid, tier, seed, "model_checking", {
-        "states": states, "transitions": transitions, "traces_validated_against_impl": traces,
-        "samples": samples or rel[:3],
+        "states": states, "transitions": transitions, "traces_validated_against_impl": tc.traces,
+        "samples": (nontriv or rel)[:3],
         "evaluations": len(rel), "distinct_nontrivial": distinct,
-        "rule": "events of kinds %s checked by monitor %s of PfxTableTrace.tla; non-trivial = distinct event with a non-NOTFOUND verdict / a state-relevant result" % (list(relevant), inv),
-        "checker_cmd": "tlc PfxTrie %s; tlc PfxTableTrace (INVARIANT %s, POSTCONDITION TraceAccepted)" % (P["model_cfg"], inv),
+        "rule": "trace events of kinds %s, each checked by monitor %s of %s.tla; non-trivial = distinct event whose answer is not the empty / NOT-FOUND one" % (list(RELEVANT[pid]), inv, tmod),
+        "checker_cmd": "tlc (models: %s); tlc %s (INVARIANT %s, POSTCONDITION TraceAccepted)" % (", ".join(m["cfg"] for m in models), tmod, inv),
+        "events_validated": tc.events,
+        "known_findings_hit": [k for k, _ in verdict.known],
         "detail": cov,
     }, time.time() - t0, len(verdict.violations), [
-        "TLC exhaustive only for the stated small constants (see cfg headers)",
+        "TLC results are exhaustive only for the small constants stated in the cfg headers",
         "code-side runs are finite seeded samples; NDEBUG build flavour (as shipped) with ASan; UBSan reports are diagnostics here",
         "trusted: TLC, the harness's JSON logging of arguments/results, clang sanitizers",
     ])
